@@ -149,12 +149,14 @@ def run_sessions(outcome, tier, seed):
             except Exception:
                 pass
     reqs, plans = [], []
+    stress = set(corpus.detection_stress())
     for data in inputs:
         if len(data) >= (1 << 21):
             continue
         froms = corpus.FORMATS + [None]
         if tier == "quick":
-            froms = rng.sample(froms, 2)
+            # the inputs chosen to stress detection always go through detection
+            froms = [None, rng.choice(corpus.FORMATS)] if data in stress else rng.sample(froms, 2)
         for frm in froms:
             for to in (corpus.FORMATS if tier == "thorough" else [rng.choice(corpus.FORMATS)]):
                 base = len(reqs)
